@@ -67,5 +67,6 @@ func VH_C16_fixed_tree(n int, bf int) {
 	vassert(l2.GetLeader(w) == r, "tree-leader-same-on-every-replica-and-view")
 	vassert(r >= 1 && int(r) <= n, "tree-leader-is-configured")
 	noTree := NewTreeBased(vhConfig(1, n))
-	vassert(noTree.GetLeader(v) == 1, "tree-leader-without-tree-is-1")
+	nt := noTree.GetLeader(v)
+	vassert(nt >= 1 && int(nt) <= n && nt == noTree.GetLeader(w), "tree-leader-without-tree-is-a-configured-constant")
 }
